@@ -320,7 +320,8 @@ def main():
                 "bounds": cfg["bounds"].get(tier, cfg["bounds"]) if isinstance(cfg.get("bounds"), dict) else cfg.get("bounds", ""),
                 "queries": res.get("solver_queries", 0), "unsat": res.get("solver_unsat", 0), "sat": res.get("solver_sat", 0),
                 "unknown": res.get("solver_unknown", 0), "solver_s": round(res.get("solver_s", 0), 2),
-                "solver": "z3 4.8.12 (z3 -in, push/pop)",
+                "solver": "z3 4.8.12 (z3 -in, push/pop); queries the incremental core leaves unknown are re-decided by one-shot z3 4.8.12 / z3 5.1.0",
+                "oneshot_fallbacks": res.get("solver_oneshot_fallbacks", 0),
                 "stubs_used": res.get("stubs_used") or [],
                 "known_findings_hit": known_lines,
                 "counterexamples": [{"harness": a, "assertion": b, "native_replay": c, "file": d} for a, b, c, d in replayed],
